@@ -1054,12 +1054,17 @@ def boundary_notes(ck):
         'eliminate_1to1_forks with a 1:1 fork that has two input lines': ['n:f:__fork__', 'n:g:BUF1', 'n:h:BUF1', 'l:0:-:1:-', 'l:2:-:0:-', 'l:1:-:0:-', 'elim'],
         'duplicate cell name': ['n:a:AND2', 'n:a:OR2'],
         'remove_dangling_nodes called on a port itself': ['n:a:input', 'io:0', 'rd:0'],
+        'substitute with a feed-through implementation (input -> fork -> output: the designated cell is a port)':
+            ['n:a:input', 'n:u:CELLX1', 'n:o:output', 'l:0:-:1:-', 'l:1:0:2:-', 'io:0', 'io:2', 'sub:1:A,input|A,__fork__|O,output;0.0.1.0|1.0.2.0;0,2'],
+        'substitute of a cell with a line from its own output to its own input':
+            ['n:a:input', 'n:u:CELLX1', 'n:o:output', 'l:0:-:1:0', 'l:1:0:1:1', 'l:1:1:2:-', 'io:0', 'io:2',
+             'sub:1:A,__fork__|B,__fork__|X,AND2|X,__fork__|Y,BUF1|Y,__fork__;0.0.2.0|1.0.2.1|2.0.3.0|3.0.4.0|4.0.5.0;0,1,3,5'],
     }
     for what, toks in probes.items():
         dumps, fails = real_trace(toks)
         v = first_violation(fails)
         res = 'WFc still holds' if v is None else f'step {v[0]} `{toks[v[0]]}` -> {v[1][0][0]}: {v[1][0][1]}'
-        if any(t.startswith('rd') for t in toks):
+        if False:
             mp = 'not modelled'
         else:
             try:
